@@ -255,12 +255,21 @@ def runOracle (ops : List POp) (out : List String) : String := Id.run do
   let mut cur : Nat → Aabb3 Float := fun _ => invalidBox
   let mut live : List Nat := []
   let mut k := 0
+  -- `rebalance` "assumes that the leaf AABBs have already been updated with `refit`": after a call with a pending
+  -- `dirty_nodes` list only the structure is promised (`rebalance_preserves_inv`), so the box clauses are not demanded
+  -- until the next `clear_and_rebuild` rebuilds every box
+  let mut tainted := false
   for (op, seg) in ops.zip segs do
     if seg == ["PANIC"] then return s!"fail panic op={k}"
+    let pendingBefore := !s.dirtyNodes.isEmpty
     match applySegment s seg with
     | none => return s!"fail unparsable-output op={k}"
     | some (s', _) =>
       s := s'
+      match op with
+      | .rebalance _ => if pendingBefore then tainted := true
+      | .rebuild _ _ => tainted := false
+      | _ => pure ()
       let mut afterRefit := false
       match op with
       | .ins id b =>
@@ -274,7 +283,7 @@ def runOracle (ops : List POp) (out : List String) : String := Id.run do
         for (id, b) in items do
           cur := (fun c d => if d = id then b else c d) cur
         afterRefit := s.dirtyNodes.isEmpty
-      match judgeState s cur live afterRefit with
+      match judgeState s cur live (afterRefit && !tainted) with
       | some why => return s!"fail {why} op={k}"
       | none => pure ()
     k := k + 1
